@@ -64,6 +64,9 @@ def transforms(b, rnd, tier):
     yield "userinfo", b.copy(user="user:pass@")
     for sub in ("www.", "www2.", "m.", "mobile.", "amp.", "WWW."):
         yield "irrelevant-subdomain:" + sub, b.copy(host=sub + b.host)
+    # several of them at once ("strips ALL of them", not the first one or two)
+    for subs in ("www.m.", "www.amp.m.", "m.mobile.www2.www."):
+        yield "irrelevant-subdomains-stacked:" + subs, b.copy(host=subs + b.host)
     yield "amp-prefix", b.copy(host="amp-" + b.host)
     for sub in ("www.", "m."):
         yield "irrelevant-subdomain-before-amp-prefix:" + sub, b.copy(host=sub + "amp-" + b.host)
@@ -121,7 +124,8 @@ def transforms(b, rnd, tier):
     yield "control-characters+whitespace", b.copy(wrap=(" \x08\t", "\x9f \x01"))
 
 
-HOSTFAM = ("irrelevant-subdomain", "amp-prefix", "host-case", "irrelevant-subdomain-before-amp-prefix", "amp-prefix-before-irrelevant-subdomain")
+HOSTFAM = ("irrelevant-subdomain", "amp-prefix", "host-case", "irrelevant-subdomain-before-amp-prefix", "amp-prefix-before-irrelevant-subdomain",
+           "irrelevant-subdomains-stacked")
 
 
 def family(name):
@@ -148,6 +152,9 @@ def bases():
     for items in (["id=7", "_rdr"], ["v=1", "t=10", "si=abc"], ["ab_channel=x", "q=1"]):
         out.append(Base("a.com", "/watch", items))
         out.append(Base("blog.a.co.uk", "/p", items))
+    # ... and dropped on their own hosts, whichever irrelevant spelling the host comes in
+    out.append(Base("youtube.com", "/watch", ["v=abc12345678", "t=10", "ab_channel=x"]))
+    out.append(Base("facebook.com", "/p", ["id=7", "_rdr"]))
     # redirect-carrying bases: every documented-irrelevant variation of the carrier must leave the inferred target alone
     out.append(Base("a.com", "/r", ["url=http%3A%2F%2Fb.com%2Fx%3Fid%3D1"]))
     out.append(Base("a.com", "/r", ["x=1", "u=/local/path"]))
